@@ -749,9 +749,17 @@ pub fn run_c06(ctx: &Ctx) {
             ctx.failure("big-payload", &f, json!({"payload_len": sz, "note": "generated by big_payload_wire"}));
         }
     }
+    // several messages through one reader
+    ctx.append_rule(crate::pipeline::RULE_C06);
+    let (shards, per) = ctx.tier.pick((16, 400), (16, 8000));
+    run_prop(ctx, "pipelined", shards, per, crate::pipeline::pipe_case, crate::pipeline::judge_c06_pipe, crate::pipeline::pipe_json);
+    crate::pipeline::volume(ctx, ctx.tier.pick(300, 1200), false);
 }
 
 pub fn replay_c06(ctx: &Ctx, sub: &str, case: &Value) -> Judge {
+    if let Some(r) = crate::pipeline::replay(ctx, "C06", case) {
+        return r;
+    }
     if sub.starts_with("fuzz-") {
         return replay_fuzz_diff(case, "C06/");
     }
@@ -868,11 +876,19 @@ pub fn run_c07(ctx: &Ctx) {
             });
         }
     });
+    // faults inside a later message of a pipelined stream
+    ctx.append_rule(crate::pipeline::RULE_C07);
+    let (shards, per) = ctx.tier.pick((16, 60), (16, 1500));
+    run_prop(ctx, "pipelined-faults", shards, per, crate::pipeline::pipe_case, crate::pipeline::judge_c07_pipe, crate::pipeline::pipe_json);
+    crate::pipeline::volume(ctx, ctx.tier.pick(300, 1200), true);
     ctx.set_exhaustive(false);
     ctx.extra("exhaustive_subdomain", json!("per message with L<=600: all cut points and all (offset, kind) faults"));
 }
 
 pub fn replay_c07(ctx: &Ctx, _sub: &str, case: &Value) -> Judge {
+    if let Some(r) = crate::pipeline::replay(ctx, "C07", case) {
+        return r;
+    }
     if let Some(s) = case.get("big_shape").and_then(|s| s.as_u64()) {
         let w = vcore::bigshapes::big_shape(s as usize, case.get("n").and_then(|n| n.as_u64()).unwrap_or(1) as usize);
         return judge_c07_sampled(&w, &Probe { ctx, counting: false }, 120);
